@@ -55,6 +55,15 @@ EDGES: List[FrozenSet[int]] = [
 assert len(EDGES) == 12
 
 
+# blockMesh reads the 12 entries of edgeGrading in this order (OpenFOAM user guide, "edgeGrading"): the four x edges
+# 0-1, 3-2, 7-6, 4-5, the four y edges 0-3, 1-2, 5-6, 4-7, the four z edges 0-4, 1-5, 2-6, 3-7.
+EDGE_GRADING_ORDER: Tuple[Tuple[Tuple[int, int], ...], ...] = (
+    ((0, 1), (3, 2), (7, 6), (4, 5)),
+    ((0, 3), (1, 2), (5, 6), (4, 7)),
+    ((0, 4), (1, 5), (2, 6), (3, 7)),
+)
+
+
 def is_edge(a: int, b: int) -> bool:
     return edge_axis(a, b) is not None
 
